@@ -229,6 +229,8 @@ class TermMixin:
                     ki = self.assume(ns, c, truth)
                 except Dead:
                     continue
+                if ki is None and self.key_all and c[0] == "cmp":
+                    ki = ("cmp", c[1], repr(c[2]), repr(c[3]), truth)
                 if ki is not None and self._want_partition(fr, b, "cond", ki):
                     ns.key = ns.key + (ki,)
                 out.append((target, ns))
